@@ -5,6 +5,7 @@ import (
 	"net"
 	"strconv"
 	"strings"
+	"sync"
 	"time"
 
 	"github.com/spali/go-rscp/rscp"
@@ -32,7 +33,7 @@ func newTCPSession(user, password, key string) (ts *tcpSession, err error) {
 	host, port, _ := net.SplitHostPort(ln.Addr().String())
 	pn, _ := strconv.Atoi(port)
 	cl, err := rscp.NewClient(rscp.ClientConfig{Address: host, Port: uint16(pn), Username: user, Password: password, Key: key,
-		ConnectionTimeout: 2 * time.Second, SendTimeout: 2 * time.Second, ReceiveTimeout: 2 * time.Second})
+		ConnectionTimeout: 2 * time.Second, SendTimeout: 2 * time.Second, ReceiveTimeout: 2 * time.Second, HeartbeatInterval: time.Second + 1})
 	if err != nil {
 		ln.Close()
 		return nil, err
@@ -143,6 +144,67 @@ func (g *gen) tcpFail(ms []rscp.Message) replySpec {
 
 func init() {
 	streams["tcp"] = func(g *gen, cw *caseWriter, n int, thorough bool) {
+		// real sockets: an authenticated connection idles longer than the heartbeat interval, then the device takes a
+		// request and closes without answering, then it is healthy again. Every request must reach the device at most
+		// once, and the unanswered call must fail.
+		{
+			type idleRes struct{ op, impl, prop string }
+			results := make([]idleRes, 2)
+			var wg sync.WaitGroup
+			for j := 0; j < 2; j++ {
+				grant := frameReply([]rscp.Message{{Tag: rscp.RSCP_AUTHENTICATION, DataType: rscp.UChar8, Value: uint8(10)}})
+				var calls []*callSpec
+				for k := 0; k < 3; k++ {
+					c := &callSpec{kind: "S", dialOk: true, writeOk: true, reqs: g.nonceRequest(k)[:1], auth: grant}
+					c.user = frameReply(replyFor(c.reqs, k))
+					if k == 1 {
+						c.user = replySpec{behaviour{kind: "closeBefore"}, "X"}
+					}
+					calls = append(calls, c)
+				}
+				wg.Add(1)
+				go func(j int, calls []*callSpec) {
+					defer wg.Done()
+					ts, err := newTCPSession("idleuser", "idlepw", "idlekey")
+					if err != nil {
+						return
+					}
+					var ops, res []string
+					prop := "pass"
+					for k, c := range calls {
+						if k == 1 {
+							time.Sleep(1100 * time.Millisecond)
+						}
+						r := ts.call(c)
+						ops = append(ops, c.op())
+						res = append(res, r)
+						nonce := hexOf([]byte(c.reqs[0].Value.(string)))
+						seen := 0
+						if at := strings.Index(r, " @ "); at >= 0 {
+							for _, ev := range strings.Split(r[at+3:], " , ") {
+								if strings.HasPrefix(ev, "sent ") && strings.Contains(ev, nonce) {
+									seen++
+								}
+							}
+						}
+						if seen > 1 {
+							prop = "FAIL C08 a request reached the peer more than once (after an idle period): " + trunc(r, 200)
+						}
+						if k == 1 && strings.HasPrefix(r, "ok") {
+							prop = "FAIL C08 a call whose request was never answered returns success: " + trunc(r, 120)
+						}
+					}
+					ts.close()
+					results[j] = idleRes{fmt.Sprintf("hist %s %s | %s", hexOf([]byte("idleuser")), hexOf([]byte("idlepw")), strings.Join(ops, " | ")), strings.Join(res, " | "), prop}
+				}(j, calls)
+			}
+			wg.Wait()
+			for _, r := range results {
+				if r.op != "" {
+					cw.add(r.op, r.impl, "N tcp idle-then-unanswered", r.prop)
+				}
+			}
+		}
 		for i := 0; i < n; i++ {
 			keyLen := 1 + i%64
 			key := g.bytes(keyLen)
